@@ -1,5 +1,6 @@
 import PikaVerif.Lemmas.Snd
 import PikaVerif.Lemmas.Shared3
+import PikaVerif.Lemmas.WhenAll
 /-!
 # C03 — sender adaptors deliver exactly one, correct completion signal
 
@@ -300,5 +301,108 @@ example : (runLog Shared.step (Shared.init .split true)
      .rcv 0 0 .stopped, .ret 0, .tdone 0, .tdone 1]).map
       (fun s => (s.aborted, s.got 0, s.gotSig 0, s.pst)) =
     some (false, 1, some .stopped, .finished) := by decide
+
+/-! ## Stage 2b — `when_all`'s counter and latch under concurrent predecessor completions
+
+`PikaVerif.WhenAll.step` is an acceptor over the hook events of `when_all_receiver::set_*` and
+`operation_state::finish` (latch access, value store, counter decrement, zero observed, delivery)
+for `n` predecessors completing on any threads, or inline in the start loop.  History fields
+(`compl`, `stage`, `first`) record what each predecessor sent, how far its receiver call got, and
+the first non-value completion to reach the latch. -/
+
+def WReach (s : WhenAll.St) : Prop := ∃ n log, runLog WhenAll.step (WhenAll.init n) log = some s
+
+def WQuiet (s : WhenAll.St) : Prop := ∀ t, s.pc t = .idle ∨ s.pc t = .fin
+
+/-- **At most once, and only by the last finishing predecessor.**  In every reachable state the
+    connected receiver has been signalled at most once; if it has, the counter is zero, every
+    predecessor's receiver call has passed its decrement, and the signal is the one determined by
+    the history (`decisionG`). -/
+theorem C03_when_all_at_most_once (s : WhenAll.St) (hr : WReach s) :
+    s.delivered ≤ 1 ∧ (s.delivered = 1 → s.remaining = 0 ∧ (∀ i, i < s.n → s.stage i = 3) ∧
+      s.result = some (WhenAll.decisionG s)) := by
+  obtain ⟨n, log, hl⟩ := hr
+  have hi := WhenAll.winv_of_accepted hl
+  refine ⟨by rcases hi.w2.delOnce with h | ⟨h, _⟩ <;> omega, fun hd => ?_⟩
+  rcases hi.w2.delOnce with h | ⟨_, hz⟩
+  · omega
+  · exact ⟨hz, WhenAll.all_decremented s hi.cnt hz, hi.w4 hd⟩
+
+/-- **Exactly once.**  When every predecessor has completed and all calls have returned, the
+    connected receiver has been signalled exactly once, with the history's decision. -/
+theorem C03_when_all_exactly_once (s : WhenAll.St) (hr : WReach s) (hq : WQuiet s) (hn : 0 < s.n)
+    (hall : ∀ i, i < s.n → s.firedI i = true) :
+    s.delivered = 1 ∧ s.result = some (WhenAll.decisionG s) := by
+  obtain ⟨n, log, hl⟩ := hr
+  have hi := WhenAll.winv_of_accepted hl
+  have hidle : ∀ t, WhenAll.curOf (s.pc t) = none ∧ WhenAll.isLast (s.pc t) = false := by
+    intro t; rcases hq t with h | h <;> simp [h, WhenAll.curOf, WhenAll.isLast]
+  have hst : ∀ i, i < s.n → s.stage i = 3 := by
+    intro i hlt
+    have h0 := (hi.w1.firedStage i).mp (hall i hlt)
+    have h3 := hi.w1.stageLe i
+    have h12 : ¬ (s.stage i = 1 ∨ s.stage i = 2) := by
+      intro h; have := hi.w1.stageCur i h; rw [(hidle _).1] at this; simp at this
+    omega
+  have hsum : PikaVerif.sumTo s.n (fun i => WhenAll.w3 (s.stage i)) = s.n :=
+    WhenAll.sumTo_all_one (fun i hlt => by simp [WhenAll.w3, hst i hlt])
+  have hz : s.remaining = 0 := by have := hi.cnt; unfold WhenAll.Cnt at this; omega
+  have hd : s.delivered = 1 := by
+    rcases hi.w2.zeroDone hz hn with h | h
+    · exact h
+    · rw [(hidle _).2] at h; simp at h
+  exact ⟨hd, hi.w4 hd⟩
+
+/-- **The decision.**  Once every predecessor's receiver call has passed the counter: the
+    decision is a value iff all predecessors sent values (and then it carries their values in
+    predecessor order, `enc (vals s)`); otherwise it is stopped or the error of the predecessor
+    whose non-value completion reached the latch first — a completion that was really sent. -/
+theorem C03_when_all_decision (s : WhenAll.St) (hr : WReach s) (hz : s.remaining = 0) :
+    ((WhenAll.decisionG s).1 = 0 ↔ ∀ i, i < s.n → ∃ a, s.compl i = some (0, a)) ∧
+    (s.first = none → WhenAll.decisionG s = (0, WhenAll.enc (WhenAll.vals s) s.n)) ∧
+    (∀ i ch e, s.first = some (i, ch, e) → i < s.n ∧ s.compl i = some (ch, e) ∧ ch ≠ 0 ∧
+      WhenAll.decisionG s = if ch = 1 then (1, 0) else (2, e)) := by
+  obtain ⟨n, log, hl⟩ := hr
+  have hi := WhenAll.winv_of_accepted hl
+  have hst := WhenAll.all_decremented s hi.cnt hz
+  refine ⟨⟨?_, ?_⟩, ?_, ?_⟩
+  · intro hd i hlt
+    have hf : s.first = none := by
+      cases hf : s.first with
+      | none => rfl
+      | some p =>
+        obtain ⟨j, ch, e⟩ := p
+        simp only [WhenAll.decisionG, hf] at hd
+        split at hd <;> simp at hd
+    have hne := hi.w1.stageCompl i (by rw [hst i hlt]; simp)
+    cases hc : s.compl i with
+    | none => exact absurd hc hne
+    | some p =>
+      obtain ⟨ch, a⟩ := p
+      have := (hi.w3.valuesStored hf i ch a (by rw [hst i hlt]; simp) hc).1
+      exact ⟨a, by rw [this]⟩
+  · intro hv
+    cases hf : s.first with
+    | none => simp [WhenAll.decisionG, hf]
+    | some p =>
+      obtain ⟨j, ch, e⟩ := p
+      have := hi.w3.firstCompl j ch e hf
+      obtain ⟨a, ha⟩ := hv j this.2.2.2
+      rw [ha] at this
+      simp at this
+      exact absurd this.1.1.symm this.2.1
+  · intro hf; simp [WhenAll.decisionG, hf]
+  · intro i ch e hf
+    have := hi.w3.firstCompl i ch e hf
+    exact ⟨this.2.2.2, this.1, this.2.1, by simp [WhenAll.decisionG, hf]⟩
+
+/-- Non-vacuity: three predecessors, the stopped one reaches the latch before the failing one,
+    the value one finishes last and delivers stopped. -/
+example : (runLog WhenAll.step (WhenAll.init 3)
+    [.invStart 0, .ret 0, .invComplete 1 0 0 7, .fire 1 0 0 7, .invComplete 2 1 2 5, .fire 2 1 2 5,
+     .invComplete 3 2 1 0, .fire 3 2 1 0, .sig 3 1, .sig 2 2, .dec 2, .ret 2, .dec 3, .ret 3,
+     .sig 1 0, .dec 1, .zero 1 true false, .rcv 1 1 0, .ret 1]).map
+      (fun s => (s.delivered, s.result, s.first)) = some (1, some (1, 0), some (2, 1, 0)) := by
+  decide
 
 end PikaVerif.C03
